@@ -46,8 +46,11 @@ AllotOf(X, Y) == {[k |-> "allot", it |-> <<[p |-> ps[1], s |-> x], [p |-> ps[2],
 \* the same account reached three times in one statement, the first two pulls partial
 Triples == {[k |-> "seq", s |-> <<[k |-> "cap", c |-> Mon(c1), s |-> [k |-> "acct", e |-> Acc("a")]], [k |-> "cap", c |-> Mon(c2), s |-> [k |-> "acct", e |-> Acc("a")]], x>>] :
                c1 \in {2}, c2 \in {2, 5}, x \in {[k |-> "acct", e |-> Acc("a")], [k |-> "ovd", e |-> Acc("a"), b |-> Mon(3)], [k |-> "seq", s |-> <<[k |-> "acct", e |-> Acc("a")], [k |-> "acct", e |-> Acc(WORLD)]>>]}}
+\* a zero share listed first still receives the first left-over unit (its balance matters)
+ZeroFirst == {[k |-> "allot", it |-> <<[p |-> Por(0, 1), s |-> x], [p |-> Por(1, 2), s |-> y], [p |-> Por(1, 2), s |-> [k |-> "acct", e |-> Acc(WORLD)]]>>] :
+                 x \in LeafFam, y \in {[k |-> "acct", e |-> Acc("b")], [k |-> "acct", e |-> Acc(WORLD)]}}
 SrcFam1 == LeafFam \cup SeqOf(LeafFam, LeafFam) \cup CapOf(LeafFam) \cup AllotOf(LeafFam, LeafFam)
-             \cup {[k |-> "seq", s |-> <<>>]} \cup Triples
+             \cup {[k |-> "seq", s |-> <<>>]} \cup Triples \cup ZeroFirst
 SrcFam2 == SrcFam1 \cup SeqOf(SrcFam1, LeafFam) \cup SeqOf(LeafFam, SrcFam1) \cup CapOf(SrcFam1)
 
 DAcct == {[k |-> "acct", e |-> Acc(x)] : x \in {"x", "y"}}
